@@ -531,6 +531,12 @@ func (u *Upgrader) Upgrade(w http.ResponseWriter, r *http.Request, responseHeade
 		}
 	}
 
+	// a connection read by a blocking reader of an nbhttp engine is subject to
+	// that engine's limits, like the ones read by its pollers.
+	if wsc.isBlockingMod && parser != nil && parser.Engine != nil {
+		wsc.Engine = parser.Engine
+	}
+
 	err = u.commResponse(wsc.Conn, responseHeader, challengeKey, subprotocol, compress)
 	if err != nil {
 		clearNBCWSSession()
